@@ -43,9 +43,21 @@ static const int kNVariants = sizeof(kVariants) / sizeof(kVariants[0]);
 static const char* const kXmlnsUri = "http://www.w3.org/2000/xmlns/";
 static std::string qn(const std::string& p, const std::string& l) { return p.empty() ? l : p + ":" + l; }
 
-static std::string render(const json& ver, const json& toks, const Variant& v) {
+// dtd: declarations every element type gets as defaulted xmlns attributes: one ATTLIST per element name that occurs
+static std::string render(const json& ver, const json& toks, const Variant& v, const json& dtd = json::array()) {
     std::string o;
     if (ver.get<std::string>() != "1.0" || v.decl10) o += "<?xml version=\"" + ver.get<std::string>() + "\"?>";
+    if (!dtd.empty()) {
+        std::vector<std::string> names;
+        for (auto& t : toks) if (t[0] == "S" && std::find(names.begin(), names.end(), qn(t[1], t[2])) == names.end()) names.push_back(qn(t[1], t[2]));
+        o += "<!DOCTYPE " + (names.empty() ? std::string("e") : names[0]) + " [";
+        for (auto& n : names) {
+            o += "<!ATTLIST " + n;
+            for (auto& d : dtd) o += " " + (d[0].get<std::string>().empty() ? std::string("xmlns") : "xmlns:" + d[0].get<std::string>()) + " CDATA '" + d[1].get<std::string>() + "'";
+            o += ">";
+        }
+        o += "]>";
+    }
     std::vector<std::string> open;
     for (size_t i = 0; i < toks.size(); i++) {
         const json& t = toks[i];
@@ -361,6 +373,7 @@ static std::string errsOf(const json& j) {
 static std::string handleCase(const json& j, std::string& stat, bool& tainted) {
     const json &ver = j[0], &toks = j[1], &ev = j[2], &dom = j[4];
     const bool specErr = j[3].get<bool>();
+    const json dtd = j.size() > 6 ? j[6] : json::array();
     std::string out;
     stat = "cases";
     stat += specErr ? "\tcases_error" : "\tcases_ok";
@@ -372,7 +385,10 @@ static std::string handleCase(const json& j, std::string& stat, bool& tainted) {
     bool after11 = false;         // this parse: no XML declaration and the parser object last saw version="1.1" (classification only)
     const bool is11 = ver.get<std::string>() == "1.1";
     bool bigTag = false;          // some start tag has more than 100 attributes (the scanners' duplicate check changes algorithm there)
+    bool manyDecls = false;       // some start tag declares more than 12 prefixes: ElemStack's map rows grow (16, 20, 25, 31 ...) only the first
+                                  // time a parser object meets such a tag, so these documents are parsed by fresh parser objects
     for (auto& t : toks) if (t[0] == "S" && t[3].size() + t[4].size() > 100) bigTag = true;
+    for (auto& t : toks) if (t[0] == "S" && t[3].size() > 12) manyDecls = true;
     (void)tainted;
     auto mismatch = [&](const std::string& api, const std::string& sc, const Variant& v, const std::string& what, bool implErr,
                         const std::string& xml, const json& got, const std::string& msg, const std::string& obs = std::string()) {
@@ -389,10 +405,10 @@ static std::string handleCase(const json& j, std::string& stat, bool& tainted) {
                          {"case", {{"mode", "T"}, {"line", j}, {"xml", xml}, {"variant", v.name}, {"got", got}, {"firstError", msg}}}});
     };
     for (auto& ps : gParsers) {
-        if (renew) { std::string sc = ps->scanner; ps.reset(); ps.reset(new Parsers(sc)); renew = false; }
+        if (renew || manyDecls) { std::string sc = ps->scanner; ps.reset(); ps.reset(new Parsers(sc)); renew = false; }
         for (int vi = 0; vi < kNVariants; vi++) {
             const Variant& v = kVariants[vi];
-            std::string xml = render(ver, toks, v);
+            std::string xml = render(ver, toks, v, dtd);
             MemBufInputSource src((const XMLByte*)xml.data(), xml.size(), "case", false);
             for (int np = 0; np < 2; np++) {
                 if ((vi + np) % 2) continue;      // each variant with one of the two settings; both settings over the variants
@@ -487,7 +503,7 @@ static int modeRender() {
     while (std::getline(std::cin, line)) {
         json j;
         if (!decode_tlc_line(line, j)) continue;
-        for (int vi = 0; vi < kNVariants; vi++) printf("%s\n", render(j[0], j[1], kVariants[vi]).c_str());
+        for (int vi = 0; vi < kNVariants; vi++) printf("%s\n", render(j[0], j[1], kVariants[vi], j.size() > 6 ? j[6] : json::array()).c_str());
     }
     return 0;
 }
